@@ -875,6 +875,16 @@ def f(n):
 ''', ['f(2)', 'f(6)'], expect_inlined=False)
 
 
+case('local closure that reads its **kw as a mapping', '''
+def f(x):
+    def build(base, **extra):
+        d = dict(base)
+        d.update(extra)
+        return sorted(d.items()), len(extra)
+    return build({'a': x}, b=x), build({'a': 1})
+''', ['f(1)', 'f("s")'])
+
+
 def run_case(name, src, calls, expect_inlined):
     tree = ast.parse(src)
     normalize._ANCHORS = set()      # nothing is an anchor in these toy modules
